@@ -186,7 +186,7 @@ func runC19(c *Ctx) {
 					}
 					c.Check(okPE, "C19.2", key, ifs.Pos(), "a malformed record is reported and skipped; other read errors stop the import", "a CSV parse error does not continue with the next record")
 				default:
-					reports := strings.Contains(exprKeyOfBlock(ifs.Body), "chErr<-")
+					reports := strings.Contains(exprKeyOfBlock(ifs.Body), "<-")
 					c.Check(isBr && br.Tok == token.CONTINUE && reports, "C19.2", key, ifs.Pos(), "reported on the error channel, then continue", "this rejection path does not report the record and continue with the next one (a bad record stops or silently drops the others)")
 				}
 			}
@@ -196,12 +196,26 @@ func runC19(c *Ctx) {
 			// short-record guard polarity
 			key = f.Name + "|short-record-guard"
 			okGuard := false
+			recName, maxName := "?", "?"
+			for _, rd := range f.Calls(loop.Body, false, "csv.Reader.Read") {
+				if o := f.resultVar(loop.Body, rd, 0); o != nil {
+					recName = o.Name()
+				}
+			}
 			inspectBody(loop.Body, func(x ast.Node) bool {
 				if ifs, ok := x.(*ast.IfStmt); ok {
 					if be, ok := ast.Unparen(ifs.Cond).(*ast.BinaryExpr); ok {
 						l, r := exprKey(be.X), exprKey(be.Y)
-						if (l == "maxCsvIdx" && r == "len(csvRow)" && be.Op == token.GEQ) || (l == "len(csvRow)" && r == "maxCsvIdx" && be.Op == token.LEQ) {
-							okGuard = endsWithContinue(ifs.Body)
+						if r == "len("+recName+")" {
+							maxName = l
+							if be.Op == token.GEQ {
+								okGuard = endsWithContinue(ifs.Body)
+							}
+						} else if l == "len("+recName+")" {
+							maxName = r
+							if be.Op == token.LEQ {
+								okGuard = endsWithContinue(ifs.Body)
+							}
 						}
 					}
 				}
@@ -212,10 +226,16 @@ func runC19(c *Ctx) {
 			// maxCsvIdx is the maximum of srcCols
 			okMax := false
 			inspectBody(f.Decl.Body, func(x ast.Node) bool {
-				if rs, ok := x.(*ast.RangeStmt); ok && exprKey(rs.X) == "cfg.srcCols" {
+				if rs, ok := x.(*ast.RangeStmt); ok && strings.HasSuffix(exprKey(rs.X), ".srcCols") {
 					for _, s2 := range rs.Body.List {
-						if ifs, ok := s2.(*ast.IfStmt); ok && exprKey(ifs.Cond) == "i>maxCsvIdx" {
-							okMax = true
+						if ifs, ok := s2.(*ast.IfStmt); ok {
+							if be, ok := ast.Unparen(ifs.Cond).(*ast.BinaryExpr); ok && be.Op == token.GTR && exprKey(be.Y) == maxName && exprKey(be.X) == exprKey(rs.Value) {
+								for _, s3 := range ifs.Body.List {
+									if as, ok := s3.(*ast.AssignStmt); ok && exprKey(as.Lhs[0]) == maxName && exprKey(as.Rhs[0]) == exprKey(rs.Value) {
+										okMax = true
+									}
+								}
+							}
 						}
 					}
 				}
@@ -247,11 +267,13 @@ func runC19(c *Ctx) {
 		g := cf.Graph()
 		// fresh slice
 		fresh := false
+		outRow := "?"
 		inspectBody(cf.Decl.Body, func(x ast.Node) bool {
-			if as, ok := x.(*ast.AssignStmt); ok && as.Tok == token.DEFINE && exprKey(as.Lhs[0]) == "sqlRow" {
-				if mk, ok := as.Rhs[0].(*ast.CallExpr); ok {
-					if id, ok := mk.Fun.(*ast.Ident); ok && id.Name == "make" && exprKey(mk.Args[1]) == "len(cfg.srcCols)" {
+			if as, ok := x.(*ast.AssignStmt); ok && as.Tok == token.DEFINE && len(as.Rhs) == 1 {
+				if mk, ok := as.Rhs[0].(*ast.CallExpr); ok && len(mk.Args) == 2 {
+					if id, ok := mk.Fun.(*ast.Ident); ok && id.Name == "make" && strings.HasSuffix(exprKey(mk.Args[1]), ".srcCols)") {
 						fresh = true
+						outRow = exprKey(as.Lhs[0])
 					}
 				}
 			}
@@ -277,13 +299,13 @@ func runC19(c *Ctx) {
 			nl, _ := g.Locate(nullIf.Cond)
 			storesNil := false
 			for _, st := range nullIf.Body.List {
-				if as, ok := st.(*ast.AssignStmt); ok && strings.HasPrefix(exprKey(as.Lhs[0]), "sqlRow[") && isNilIdent(cf, ast.Unparen(as.Rhs[0])) {
+				if as, ok := st.(*ast.AssignStmt); ok && strings.HasPrefix(exprKey(as.Lhs[0]), outRow+"[") && isNilIdent(cf, ast.Unparen(as.Rhs[0])) {
 					storesNil = true
 				}
 			}
 			early := ""
 			inspectBody(cf.Decl.Body, func(x ast.Node) bool {
-				if as, ok := x.(*ast.AssignStmt); ok && strings.HasPrefix(exprKey(as.Lhs[0]), "sqlRow[") {
+				if as, ok := x.(*ast.AssignStmt); ok && strings.HasPrefix(exprKey(as.Lhs[0]), outRow+"[") {
 					if as.Pos() >= nullIf.Body.Pos() && as.End() <= nullIf.Body.End() {
 						return true
 					}
@@ -313,8 +335,13 @@ func runC19(c *Ctx) {
 		c.Check(okInt, "C19.5", cf.Name+"|base-10", cf.Decl.Pos(), "integers are converted base 10", "an integer field is converted with a base other than 10")
 		okIdx := false
 		inspectBody(cf.Decl.Body, func(x ast.Node) bool {
-			if sw, ok := x.(*ast.SwitchStmt); ok && sw.Tag != nil && exprKey(sw.Tag) == "cfg.colTypes[i]" {
-				okIdx = true
+			if sw, ok := x.(*ast.SwitchStmt); ok && sw.Tag != nil {
+				if ix, ok := ast.Unparen(sw.Tag).(*ast.IndexExpr); ok && strings.HasSuffix(exprKey(ix.X), ".colTypes") {
+					// the index is the range key of the loop over srcCols
+					if rs, ok := enclosingLoop(cf.Decl.Body, sw).(*ast.RangeStmt); ok && strings.HasSuffix(exprKey(rs.X), ".srcCols") && exprKey(rs.Key) == exprKey(ix.Index) {
+						okIdx = true
+					}
+				}
 			}
 			return true
 		})
@@ -339,9 +366,9 @@ func runC19(c *Ctx) {
 	if tf := c.NeedFunc("C19.5", "csvimport.colDataTypes"); tf != nil {
 		okOrder := false
 		inspectBody(tf.Decl.Body, func(x ast.Node) bool {
-			if rs, ok := x.(*ast.RangeStmt); ok && exprKey(rs.X) == "dstCols" {
+			if rs, ok := x.(*ast.RangeStmt); ok && exprKey(rs.X) == paramName(tf, 2) {
 				for _, st := range rs.Body.List {
-					if as, ok := st.(*ast.AssignStmt); ok && strings.HasSuffix(exprKey(as.Lhs[0]), "[i]") && strings.Contains(exprKey(as.Rhs[0]), "storage.DataType(") {
+					if as, ok := st.(*ast.AssignStmt); ok && strings.HasSuffix(exprKey(as.Lhs[0]), "["+exprKey(rs.Key)+"]") && strings.Contains(exprKey(as.Rhs[0]), "storage.DataType(") {
 						okOrder = true
 					}
 				}
@@ -470,8 +497,15 @@ func runC20(c *Ctx) {
 	// the cut includes the terminator and starts where the previous one ended
 	okCut := false
 	ast.Inspect(f.Decl.Body, func(x ast.Node) bool {
-		if se, ok := x.(*ast.SliceExpr); ok && exprKey(se.X) == "line" && se.Low != nil && se.High != nil && exprKey(se.Low) == "rest" && exprKey(se.High) == "cur+1" {
-			okCut = true
+		if se, ok := x.(*ast.SliceExpr); ok && exprKey(se.X) == paramName(f, 0) && se.Low != nil && se.High != nil {
+			// low = the position variable that is afterwards set to high; high = loop index + 1
+			lowName := exprKey(se.Low)
+			inspectBody(f.Decl.Body, func(y ast.Node) bool {
+				if as, ok := y.(*ast.AssignStmt); ok && len(as.Lhs) == 1 && exprKey(as.Lhs[0]) == lowName && exprKey(as.Rhs[0]) == exprKey(se.High) && strings.HasSuffix(exprKey(se.High), "+1") {
+					okCut = true
+				}
+				return true
+			})
 		}
 		return true
 	})
@@ -536,7 +570,7 @@ func runC20(c *Ctx) {
 				// buffer cleared only inside the submit branch
 				cleared := true
 				inspectBody(arm, func(y ast.Node) bool {
-					if as, ok := y.(*ast.AssignStmt); ok && exprKey(as.Lhs[0]) == "t.line" && strings.Contains(exprKey(as.Rhs[0]), "[:0]") {
+					if as, ok := y.(*ast.AssignStmt); ok && exprKey(as.Lhs[0]) == recvName(hk)+".line" && strings.Contains(exprKey(as.Rhs[0]), "[:0]") {
 						if submit == nil || as.Pos() < submit.Body.Pos() || as.End() > submit.Body.End() {
 							cleared = false
 						}
@@ -551,7 +585,7 @@ func runC20(c *Ctx) {
 	if rt := c.NeedFunc("C20.2", "console.runTerminal"); rt != nil {
 		okLoop := false
 		inspectBody(rt.Decl.Body, func(x ast.Node) bool {
-			if rs, ok := x.(*ast.RangeStmt); ok && exprKey(rs.X) == "lines" {
+			if rs, ok := x.(*ast.RangeStmt); ok && isReadLineResult(rt, rs.X) {
 				if len(rt.Calls(rs.Body, false, "engine.Session.ExecQuery")) == 1 {
 					okLoop = true
 				}
@@ -582,4 +616,18 @@ func runC20(c *Ctx) {
 			c.Check(ok, "C20.3", key, decs[0].Pos(), "DecodeRune is dominated by a FullRune test", "bytesToKey decodes a rune without first testing utf8.FullRune: the leading bytes of a multi-byte character that straddles a read boundary are consumed as an invalid rune and the character disappears from the statement")
 		}
 	}
+}
+
+// isReadLineResult: the expression is the variable bound to the first result of Terminal.ReadLine.
+func isReadLineResult(f *Func, e ast.Expr) bool {
+	id, ok := ast.Unparen(e).(*ast.Ident)
+	if !ok {
+		return false
+	}
+	for _, call := range f.Calls(f.Decl.Body, false, "console.Terminal.ReadLine") {
+		if f.resultVar(f.Decl.Body, call, 0) == f.ObjOf(id) {
+			return true
+		}
+	}
+	return false
 }
